@@ -4,8 +4,12 @@ import Frugal.Proofs.ReaderProps
 import Frugal.Proofs.SecondHop
 import Frugal.Proofs.HoldersRead
 import Frugal.Proofs.ReadTyped
+import Frugal.Proofs.UnknownIdxLemmas
 import Frugal.Proofs.DecodeRefine
-import Frugal.Props.Instances
+import Frugal.Props.Inst.Params
+import Frugal.Props.Inst.F_facts_unknownIndexProtocol
+import Frugal.Props.Inst.F_skeleton_decoder
+import Frugal.Props.Inst.F_skeleton_encoder
 namespace Frugal.C11
 open Frugal
 /-- retained unknown-field bytes are re-emitted verbatim inside their struct, before STOP -/
@@ -149,4 +153,45 @@ theorem size_counts_holder (S : Schema) (hS : S.ok = true) (sid : Nat) (v : Val)
     (ht : hasTy S (.strct sid) v = true) :
     sizeM Generated.params S sid v = (refEncStruct S sid v).length :=
   sizeFunc_eq Instances.params_valid S hS v (.strct sid) rfl ht rfl
+/-! ### the (offset, size) index of unknownfields.go
+
+The decoder does not append skipped bytes as the byte-level model does: it records
+`(i - fieldHeaderLen, n + fieldHeaderLen)` and copies the ranges out of the struct's input slice after
+STOP into a buffer of `sz` uninitialised bytes (UnknownIdx.lean).  The two agree: -/
+
+/-- the code is that index (regenerated fact: `Add`, `Reset`, `Size`, `Copy` and the three call sites
+    in `Decode`, statement by statement; `fieldHeaderLen = 3`) -/
+theorem index_code_is_the_model : Generated.facts.unknownIndexProtocol = true :=
+  Instances.facts_unknownIndexProtocol
+
+/-- one skipped field: the extent recorded for it — header position, value length + 3 — is inside the
+    input and is exactly the bytes the byte-level model appends (type byte, the two id bytes, the `n`
+    skipped bytes), and the index invariant (ranges in bounds, `sz` = bytes covered) is kept -/
+theorem index_step_agrees (p : UF) (b unk : Bytes) (i0 n : Nat) (tp : UInt8) (r r1 : Bytes) (fid : Nat)
+    (hp : p.Inv b) (hu : p.copied b = unk) (hb : b.drop i0 = tp :: r) (hid : rd16 r = some (fid, r1))
+    (hn : n ≤ r1.length) :
+    (p.add i0 (n + 3)).Inv b ∧ (p.add i0 (n + 3)).copied b = unk ++ tp :: (r.take 2 ++ r1.take n) :=
+  step_agrees p b unk i0 n tp r r1 fid hp hu hb hid hn
+
+/-- any history of recorded extents from `Reset`: `Copy` succeeds — no range leaves the input, every
+    byte of its uninitialised buffer is written — and returns the recorded slices in order -/
+theorem index_copy_is_concatenation (b : Bytes) (es : List (Nat × Nat))
+    (h : ∀ e ∈ es, e.1 + e.2 ≤ b.length) :
+    (es.foldl (fun u e => u.add e.1 e.2) UF.reset).copy b = some (es.flatMap fun e => slice b e.1 e.2) := by
+  have := UF.history b es UF.reset (UF.inv_reset b) h
+  rw [UF.copy_of_inv _ b this.1, this.2]
+  simp [UF.copied, UF.reset]
+
+/-- the theorems above that speak of `decodeM` / the reference reader are about the hand-written model
+    of `Decode` / `decodeType` / `decodeStringNoCopy` / `decodeFixedSizeTypes` / `skipUnknown`
+    (Decode.lean), written from exactly this control structure of the code (regenerated fingerprint) -/
+theorem decoder_model_written_from_this_code : Generated.facts.decoderSkeleton = Skeleton.decoder :=
+  Instances.skeleton_decoder
+
+/-- … and those that speak of `appendM` / `sizeM` about the hand-written model of `appendStruct` /
+    `appendAny` / the size walk / the entry points (Encode.lean), written from exactly this control
+    structure of the code (regenerated fingerprint; the fast-path tables are regenerated themselves) -/
+theorem encoder_model_written_from_this_code : Generated.facts.encoderSkeleton = Skeleton.encoder :=
+  Instances.skeleton_encoder
+
 end Frugal.C11
